@@ -118,6 +118,7 @@ def run(ck):
     sw = vlib.prep_spec("Datagram", ck.work)
     cover, sims, strict = cfgs(ck.tier)
     ck.par = 4
+    tmo = 900 if ck.tier == "quick" else 3000    # generous: the machine is shared; a timeout is exit 2, never a verdict
     ck.cov["rule"] = ("scenarios = every transition of the exhaustive DatagramImpl state graphs (shortest path + edge; "
                       "the larger graphs sampled by seed) plus seeded random long histories; non-trivial = the scenario "
                       "has a datagram the filter keeps from an eligible receiver, a truncating or re-designated read "
@@ -130,9 +131,9 @@ def run(ck):
         lane, (name, over, every) = arg
         consts = _consts(over)
         cfg = vlib.cfg_with(sw, "DatagramImpl_mc.cfg", dict(consts, **bugflags))
-        r = vlib.tlc(sw, "DatagramImpl", cfg, workers=2, timeout=1500)
+        r = vlib.tlc(sw, "DatagramImpl", cfg, workers=2, timeout=tmo)
         if not r.ok:
-            raise vlib.Inconclusive("DatagramImpl %s: %s\n%s" % (name, r.violated or r.error, r.tail()))
+            raise vlib.Inconclusive("DatagramImpl %s: %s\n%s" % (name, r.violated or r.error, r.tail(6)))
         ck.add_tlc("DatagramImpl transition cover: " + name, r, consts)
         vlib.log("[c12] tlc cover %-24s %.1fs" % (name, r.wall))
         for line in r.lines('<<"MODELBAD"'):
@@ -150,7 +151,7 @@ def run(ck):
         consts = _consts(over)
         cfg = vlib.cfg_with(sw, "DatagramImpl_sim.cfg", dict(consts, **bugflags))
         r = vlib.tlc(sw, "DatagramImpl", cfg, workers=1, simulate=num, depth=consts["MaxHist"] + 3,
-                     seed=ck.seed * 1000 + lane, timeout=1500)
+                     seed=ck.seed * 1000 + lane, timeout=tmo)
         if r.violated or (r.error and "timeout" in r.error):
             raise vlib.Inconclusive("DatagramImpl simulation %s: %s\n%s" % (name, r.violated or r.error, r.tail()))
         ck.add_tlc("DatagramImpl random simulation: " + name, r, consts, exhaustive=False)
@@ -164,7 +165,7 @@ def run(ck):
         name, over = arg
         consts = _consts(over)
         cfg = vlib.cfg_with(sw, "DatagramImpl_strict.cfg", dict(consts, **bugflags))
-        r = vlib.tlc(sw, "DatagramImpl", cfg, workers=4, timeout=1500)
+        r = vlib.tlc(sw, "DatagramImpl", cfg, workers=4, timeout=tmo)
         if not r.ok:
             raise vlib.Inconclusive("DatagramImpl %s: %s\n%s" % (name, r.violated or r.error, r.tail()))
         ck.add_tlc("DatagramImpl exhaustive (no replay): " + name, r, consts)
